@@ -903,6 +903,10 @@ def h7_docs(timeout=300, part=None, **kw):
         sel["em"] = ex.choice(2, "em") if sel["scheme"] >= 2 else 1
         sel["P"] = ex.choice(len(DOC_PS), "P") if (sel["history"] == 0 and sel["pair"] == 1) else 0
         r = _docs_check(sel)
+        if r is not None:               # paths share this process: report a history that fails from a cold start
+            sc = core.self_contained("C10", "_docs_check", sel, [dict(sel, history=h, other=sel["other"]) for h in range(len(DOC_HISTORIES)) if h != sel["history"]])
+            if sc is not None:
+                sel, r = sc
         ex.require(r is None, r or "", sel=sel)
 
     def conc(m, info):
